@@ -164,6 +164,9 @@ def finish(prop, tier, seed, nshards, mod, results, inconclusive, t0, is_replay)
     wall = time.time() - t0
     outdir = ROOT / "out" / "replays" / prop
     replay_paths = []
+    if outdir.exists() and not is_replay:
+        for old in outdir.glob(f"{tier}-seed{seed}-*.json"):
+            old.unlink()
     if unknown:
         outdir.mkdir(parents=True, exist_ok=True)
         for i, v in enumerate(unknown[:20]):
